@@ -4,7 +4,7 @@ from lib import common as C
 from lib import gen, alngen
 
 LEVEL = "proof"
-CHECKER = "lake build KalignModel.Props.C06 && lake env lean KalignModel/Audit/C06.lean"
+CHECKER = "lake build KalignModel.Props.PipelineFile && lake env lean KalignModel/Audit/C06.lean"
 FMTS = ["fasta", "msf", "clu"]
 
 
@@ -30,12 +30,14 @@ def run(ctx):
                         "prefixes of each other and punctuation-only names, mixed case) written by the real writers in each format and read back by the real readers; "
                         "compared: names, residues, gap vectors, order; non-trivial = distinct (alignment, format) with >= 2 rows and >= 1 gap")
     thms = theorems()
-    ok = C.lean_obligations(ctx, "C06", thms) if thms else False
+    thms = thms + C.pipefile_theorems(["kalignFile_roundtrip"]) if thms else thms
+    ok = C.lean_obligations(ctx, "C06", thms, module="PipelineFile") if thms else False
     if not thms:
         ctx.obligations.append(dict(name="Props/C06 theorems", ok=False, why="theorem list missing"))
     kvh = C.build_harness("asan")
     rng = ctx.rng
     diffs = C.unit_correspondence(ctx, kvh, C.gen_ops("gen_io.py", ctx.seed, 1 if ctx.quick else 8, prefixes=('write_read', 'read')), "write+read")
+    diffs += C.pipefile_correspondence(ctx, kvh, [4 * ctx.seed + 1] if ctx.quick else [4 * ctx.seed + 1 + 40 * k for k in range(5)])
     sc = C.scratch()
     alns = [alngen.rand_alignment(rng, not ctx.quick) for _ in range(60 if ctx.quick else 600)] + [alngen.long_row_alignment(rng) for _ in range(6 if ctx.quick else 60)]
     lines, meta = [], []
